@@ -1,15 +1,24 @@
 #!/usr/bin/env python3
-"""keep_seed.py <name> <worktree> <property> <detected_by comma list> <needs text>  — store a confirmed seeded change"""
+"""keep_seed.py <name> <property> <detected_by comma list> <needs text> [missed_first comma list]
+   store a confirmed seeded change from the scratch worktree /tmp/seed/<name>
+   (expects /tmp/seed/<name>.patch and /tmp/seed/<name>.confirm.json written by tools/confirm_seed.sh)"""
 import json, os, shutil, sys
-name, wt, prop, detected, needs = sys.argv[1:6]
+name, prop, detected, needs = sys.argv[1:5]
+missed = sys.argv[5] if len(sys.argv) > 5 else ""
+wt = f"/tmp/seed/{name}"
+conf = json.load(open(f"/tmp/seed/{name}.confirm.json"))
+assert conf["demo_with_change_rc"] != 0 and conf["demo_without_change_rc"] == 0 and conf["suite_rc"] == 0 and conf["suite"].startswith("59"), conf
 d = f"/verif/seeded/{name}"
 os.makedirs(d, exist_ok=True)
-for f in ("patch.diff", "demo.rs", "README.md"):
-    if os.path.exists(f"{wt}/MUTATION/{f}"):
-        shutil.copy(f"{wt}/MUTATION/{f}", f"{d}/{f}")
+shutil.copy(f"/tmp/seed/{name}.patch", f"{d}/patch.diff")
+shutil.copy(f"{wt}/tests/seed_demo.rs", f"{d}/demo.rs")
+if os.path.exists(f"{wt}/SEED_REPORT.md"):
+    shutil.copy(f"{wt}/SEED_REPORT.md", f"{d}/README.md")
+det = [x for x in detected.split(",") if x]
 json.dump(dict(name=name, property=prop, needs_to_manifest=needs,
                confirmed=dict(existing_suite_passes_with_change=True, demo_fails_with_change=True, demo_passes_without_change=True,
-                              how="sub-agent report, patch re-applied to /repo by tools/muttest.sh; the checks named in detected_by printed VIOLATION with the patch and exit 0 without it"),
-               detected_by=[x for x in detected.split(",") if x], ran=f"tools/muttest.sh seeded/{name}/patch.diff " + " ".join(x for x in detected.split(",") if x)),
+                              how="tools/confirm_seed.sh in the sub-agent's scratch worktree: cargo test --test seed_demo with the change (rc %d), with the change reverted (rc 0), cargo nextest run --workspace with the change (%s); then the patch was applied to /repo by tools/muttest.sh, the checks named in detected_by printed VIOLATION with it and exit 0 without it" % (conf["demo_with_change_rc"], conf["suite"])),
+               detected_by=det, missed_at_first_by=[x for x in missed.split(",") if x],
+               ran=f"tools/confirm_seed.sh {name}; tools/muttest.sh seeded/{name}/patch.diff " + " ".join(det)),
           open(f"{d}/meta.json", "w"), indent=1)
 print("kept", d)
